@@ -56,8 +56,8 @@ class Lane(object):
         """strategy: callable(tier) -> hypothesis strategy of JSON-able cases.
         check: callable(case) -> Verdict.   quick/thorough: case budgets.
         candidates: callable(case) -> iterable of smaller cases (for shrinking).
-        custom: callable(tier, seed) -> (stats dict, failures list) for non-hypothesis lanes
-        (exhaustive enumerations); such lanes run in one process."""
+        custom: callable(tier, seed, shard, nshards) -> (stats dict, failures list) for non-hypothesis
+        lanes (exhaustive enumerations); `shards` processes each take their part of the space."""
         self.name = name
         self.strategy = strategy
         self.check = check
@@ -155,6 +155,9 @@ def run_shard(args):
     """Worker: one hypothesis run (several rounds if failures are found)."""
     modname, lane_name, tier, seed, shard, n_examples, known_keys = args
     try:
+        # the code under test may print (debug prints, ANTLR console listener): keep the check's stdout clean
+        if multiprocessing.current_process().name != 'MainProcess':
+            sys.stdout = open(os.devnull, 'w')
         return _run_shard(modname, lane_name, tier, seed, shard, n_examples, known_keys)
     except BaseException as e:  # harness error
         return {'lane': lane_name, 'shard': shard, 'error': ''.join(traceback.format_exception(type(e), e, e.__traceback__))}
@@ -167,7 +170,7 @@ def _run_shard(modname, lane_name, tier, seed, shard, n_examples, known_keys):
     lane = [l for l in mod.LANES if l.name == lane_name][0]
     t0 = time.time()
     if lane.custom is not None:
-        st_, fails = lane.custom(tier, seed)
+        st_, fails = lane.custom(tier, seed, shard, n_examples)
         return {'lane': lane_name, 'shard': shard, 'stats': st_, 'failures': fails, 'wall': time.time() - t0}
     strategy = lane.strategy(tier)
     stats = Stats()
@@ -374,7 +377,10 @@ def main(argv=None):
         if budget <= 0:
             continue
         if lane.custom is not None:
-            tasks.append((mod.__name__, lane.name, a.tier, seed, 0, budget, tuple(known_keys)))
+            # custom(tier, seed, shard, nshards): enumerations split their space over the shards
+            nsh = lane.shards or 1
+            for s in range(nsh):
+                tasks.append((mod.__name__, lane.name, a.tier, seed, s, nsh, tuple(known_keys)))
             continue
         shards = lane.shards or min(a.workers, max(1, budget // 50))
         per = max(1, budget // shards)
